@@ -1,6 +1,6 @@
 ----------------------------- MODULE MC_PolyScale -----------------------------
 EXTENDS Integers, Sequences, FiniteSets, TLC, TLCExt, Json, CSV, IOUtils, SequencesExt
-CONSTANTS MaxLen, LoAbs, Hi, Emit
+CONSTANTS MaxLen, LoAbs, Hi, Emit, ElemAbs
 Lo == -LoAbs
 P == INSTANCE PolyScale
 
@@ -9,8 +9,17 @@ VARIABLES x, kind, ddof, docenter, doscale, degree
 vars == <<x, kind, ddof, docenter, doscale, degree>>
 X == P!RVec(x)
 NotConstant == P!Distinct(X) >= 2
+\* elementwise family: kind = "elem", x = <<k>>, k an integer exponent of either sign in -ElemAbs..ElemAbs; bases 10 and 2 with the largest
+\* exponent whose power is a 32-bit integer (10^9, 2^30) as chunk
+Bases == << [b |-> 10, chunk |-> 9], [b |-> 2, chunk |-> 30] >>
+ElemLaws(k) == \A n \in DOMAIN Bases : LET b == Bases[n].b c == Bases[n].chunk IN
+        /\ P!ChunksSound(k, c)
+        /\ P!Abs(k) <= c => /\ P!ExpHom(b, k, c) /\ P!ExpReciprocal(b, k) /\ P!LogB(b, P!Exp(b, k), c) = k       \* log_b is the inverse of b^.
+                          /\ (k < c => P!ExpMonotone(b, k))
+                          /\ (k < 0 => P!RLt(P!Zero, P!Exp(b, k)) /\ P!RLt(P!Exp(b, k), P!One))      \* a negative exponent has a value, a proper fraction
 
-Laws == /\ (kind = "scale" /\ NotConstant) => P!CenteredSumsToZero(X) /\ P!UnitVariance(X, ddof)
+Laws == /\ kind = "elem" => ElemLaws(x[1])
+        /\ (kind = "scale" /\ NotConstant) => P!CenteredSumsToZero(X) /\ P!UnitVariance(X, ddof)
         /\ (kind = "poly" /\ P!Distinct(X) > degree) => P!PolyOrthogonal(X, degree)
         \* state first: applying the recorded state to the training data reproduces the fit; each row is a function of its own input only
         /\ (kind = "scale" /\ NotConstant) => LET st == P!ScaleFit(X, docenter, doscale, ddof) IN
@@ -34,11 +43,15 @@ EmitCase == Emit =>
     [] kind = "poly" /\ P!Distinct(X) > degree ->
          CSVWrite("%1$s", <<ToJson([kind |-> kind, x |-> x, degree |-> degree, fit |-> P!PolyApply(X, degree, X),
                     follow |-> [f \in DOMAIN Follow |-> [y |-> Follow[f], v |-> P!PolyApply(X, degree, P!RVec(Follow[f]))]]])>>, Out)
+    [] kind = "elem" ->
+         CSVWrite("%1$s", <<ToJson([kind |-> kind, k |-> x[1], exp10 |-> P!ExpFactors(10, x[1], 9), exp2 |-> P!ExpFactors(2, x[1], 30)])>>, Out)
     [] OTHER -> TRUE
 
-Init == /\ x = <<>> /\ kind \in {"scale", "poly"}
-        /\ ((kind = "scale" /\ ddof \in {0, 1} /\ docenter \in BOOLEAN /\ doscale \in BOOLEAN /\ degree = 0)
-            \/ (kind = "poly" /\ ddof = 0 /\ docenter = TRUE /\ doscale = TRUE /\ degree \in 1..3))
-Next == Len(x) < MaxLen /\ \E v \in Lo..Hi : x' = Append(x, v) /\ UNCHANGED <<kind, ddof, docenter, doscale, degree>>
+ElemInit == kind = "elem" /\ x \in {<<k>> : k \in -ElemAbs..ElemAbs} /\ ddof = 0 /\ docenter = TRUE /\ doscale = TRUE /\ degree = 0
+VecInit == /\ x = <<>> /\ kind \in {"scale", "poly"}
+           /\ ((kind = "scale" /\ ddof \in {0, 1} /\ docenter \in BOOLEAN /\ doscale \in BOOLEAN /\ degree = 0)
+               \/ (kind = "poly" /\ ddof = 0 /\ docenter = TRUE /\ doscale = TRUE /\ degree \in 1..3))
+Init == VecInit \/ ElemInit
+Next == kind # "elem" /\ Len(x) < MaxLen /\ \E v \in Lo..Hi : x' = Append(x, v) /\ UNCHANGED <<kind, ddof, docenter, doscale, degree>>
 Spec == Init /\ [][Next]_vars
 =============================================================================
